@@ -151,15 +151,17 @@ Catalogue == [
   Nt     |-> <<F("id", "ntu32"), F("name", "ntstr")>>,
   SeqS   |-> <<F("v", "vecstr"), F("z", "u8")>>,
   SeqN   |-> <<F("w", "vecu32")>>,
+  Seq2   |-> <<F("v", "vecstr"), F("w", "vecu32")>>,          \* two sequences in one value
+  TupSeq |-> <<F("t", "tup2u32"), F("w", "vecu32")>>,         \* a tuple `(u32, u32)` (a sequence of fixed length to serde) before a sequence
   Map    |-> <<>> ]
 NameCp == [a |-> <<97>>, b |-> <<98>>, c |-> <<99>>, d |-> <<100>>, e |-> <<101>>, f |-> <<102>>, g |-> <<103>>,
            h |-> <<104>>, i |-> <<105>>, j |-> <<106>>, x |-> <<120>>, y |-> <<121>>, s |-> <<115>>, t |-> <<116>>,
            u_n |-> <<117, 95, 110>>, z |-> <<122>>, o |-> <<111>>, p |-> <<112>>, id |-> <<105, 100>>,
            name |-> <<110, 97, 109, 101>>, v |-> <<118>>, w |-> <<119>>]
 IntKinds == {"i8", "i16", "i32", "i64", "u8", "u16", "u32", "u64", "isize", "usize"}
-SymKinds == IntKinds \cup {"bool", "f32", "f64", "enum", "ntu32", "optu32", "vecu32"}   \* values owned by the harness' tables
+SymKinds == IntKinds \cup {"bool", "f32", "f64", "enum", "ntu32", "optu32", "vecu32", "tup2u32"}   \* values owned by the harness' tables
 OptKinds == {"optstr", "optu32"}
-SeqKinds == {"vecstr", "vecu32"}
+SeqKinds == {"vecstr", "vecu32", "tup2u32"}
 
 \* ------------------------------------------------------------------ layer (b): ohkami's section walker
 \* next_section: the next `=`/`&`; on the Key side it must be `=` (and not at 0), on the Value side `&` or end.
